@@ -43,7 +43,15 @@ RULE = (
     "dm.dominance.has_loops(strict=), dominated(strict=) whose returned Series the caller sorts / overwrites / flips in place, bt(), "
     "eq(), dominance(strict=), compare(), dominators_of(), an earlier FilterNonDominated - on matrices (rows shuffled) where a "
     "dominated alternative is listed BEFORE a non-dominated one; every run has has_loops or an in-place edit of dominated()'s answer "
-    "with the run's own strict setting; the survivors are still exactly the non-dominated alternatives and the matrix is unchanged. "
+    "with the run's own strict setting; the survivors are still exactly the non-dominated alternatives and the matrix is unchanged; "
+    "(g) a fixed share of LONG matrices (17-60 alternatives, labels in no particular order, rows shuffled, 1-5 criteria): "
+    "FilterNonDominated with both strict settings plus three by-criteria classes per case (all nine in rotation), matrices and "
+    "conditions chosen so that at least two alternatives survive (and, when possible, some are removed in between): the survivors "
+    "come out in their ORIGINAL RELATIVE ORDER, labels and rows; (h) a fixed share of REUSE cases: ONE filter object (three "
+    "by-criteria classes per case, all nine in rotation) applied to a matrix and then, the same object, to one or two other "
+    "matrices that hold the named criteria at DIFFERENT column positions (criteria re-ordered, a criterion inserted or removed "
+    "before them, a narrower matrix, a named criterion gone, back to the first matrix; other alternatives and values, the "
+    "columns of shared criteria seeded with the first matrix's values) - each application judged against its own matrix. "
     "Thorough tier adds the exhaustive enumeration: "
     "every matrix with <= 3 alternatives x <= 2 criteria over {0,1,2}, every non-empty condition set over {C0, C1, absent ZZ} "
     "with thresholds in {1,2} in every key order, both ignore settings, all nine by-criteria classes; and every such matrix "
@@ -633,6 +641,148 @@ def _history_case(rng, k):
     return {"dm": dm, "runs": runs}
 
 
+# ---- long matrices (17-60 alternatives): the survivors keep their original relative order
+
+
+def _many_alt_labels(rng, m):
+    return rng.sample(G.LABEL_POOL_ALT + ["R%02d" % i for i in range(30)], m)
+
+
+def _pick_conds(rng, cls, dm, min_keep=2, tries=25):
+    """a condition set of class cls that leaves at least min_keep alternatives (and, if possible, removes some)"""
+    best = None
+    for _ in range(tries):
+        absent = 1 if rng.random() < 0.15 else 0
+        conds = _conds(rng, cls, dm, force_absent=absent)
+        run = {"cls": cls, "conds": conds, "ignore": bool(absent) or rng.random() < 0.3}
+        keep = oracle(dm, run)
+        if len(keep) >= min_keep:
+            if len(keep) < len(dm["matrix"]):
+                return run
+            best = best or run
+    return best or run
+
+
+def _order_case(rng, k):
+    dm = None
+    for attempt in range(30):
+        # the dominance tables of the implementation cost m^2: most matrices just past 16 alternatives, a fifth up to 60
+        m = rng.choice([rng.randint(17, 24), rng.randint(17, 24), rng.randint(17, 32), rng.randint(25, 40), rng.randint(41, 60)])
+        n = rng.choice([1, 2, 2, 3, 3, 4, 5])
+        fam = rng.choice(["dyadic", "dyadic", "float"])
+        positive = rng.random() < 0.6
+        objs = G.objectives(rng, n)
+        rows = G.matrix(rng, m, n, fam, positive, ties=rng.choice([0.1, 0.3, 0.6]), dups=rng.choice([0.0, 0.1]),
+                        dominated=rng.choice([0.2, 0.5, 0.8]), objs=objs)
+        rng.shuffle(rows)
+        int_matrix = False
+        if fam == "dyadic" and rng.random() < 0.25:
+            rows = [[float(int(x * 8)) for x in row] for row in rows]
+            int_matrix = True
+        dm = {"matrix": rows, "int_matrix": int_matrix, "objectives": objs, "weights": G.weights(rng, n, "dyadic"),
+              "alternatives": _many_alt_labels(rng, m), "criteria": G.labels(rng, G.LABEL_POOL_CRIT, n), "family": "long:" + fam}
+        keeps = [oracle(dm, {"cls": "NonDominated", "strict": s}) for s in (False, True)]
+        if all(len(kp) >= 2 for kp in keeps) and len(keeps[0]) < m:
+            break
+    runs = [{"cls": "NonDominated", "strict": s} for s in ([False, True] if k % 2 == 0 else [True, False])]
+    for t in range(3):
+        runs.append(_pick_conds(rng, BYCRIT[(3 * k + t) % len(BYCRIT)], dm))
+    return {"dm": dm, "runs": runs}
+
+
+# ---- one filter object applied to several matrices that hold the named criteria at different column positions
+
+
+def _derived_dm(rng, dm, named):
+    """another decision matrix (other alternatives, other values) whose criteria are those of dm re-ordered / with a criterion
+    inserted or removed before the named ones / cut down to a narrower matrix; returns (matrix, how)"""
+    crits = list(dm["criteria"])
+    here = [c for c in crits if c in named]
+    how = rng.choice(["reorder", "reorder", "insert-before", "remove-before", "narrower", "narrower", "reorder+insert", "drop-named"])
+    new = list(crits)
+    fresh = [c for c in G.LABEL_POOL_CRIT if c not in crits and c not in named]
+
+    def moved(cs):
+        return any(c in cs and cs.index(c) != crits.index(c) for c in here)
+
+    if how == "remove-before":
+        first = [c for c in crits[: max([crits.index(c) for c in here] or [0])] if c not in named]
+        if first:
+            new.remove(rng.choice(first))
+        else:
+            how = "insert-before"
+    if how == "drop-named":
+        if len(here) >= 1 and len(crits) >= 2:
+            new.remove(rng.choice(here))
+            rng.shuffle(new)
+        else:
+            how = "insert-before"
+    if how == "narrower":
+        keep = list(here) + rng.sample([c for c in crits if c not in here], rng.randint(0, max(0, len(crits) - len(here) - 1)))
+        if 0 < len(keep) < len(crits):
+            new = keep
+            for _ in range(8):
+                rng.shuffle(new)
+                if moved(new):
+                    break
+        else:
+            how = "reorder"
+    if how in ("reorder", "reorder+insert"):
+        if len(crits) >= 2:
+            for _ in range(8):
+                rng.shuffle(new)
+                if moved(new):
+                    break
+        else:
+            how = "insert-before"
+    if how in ("insert-before", "reorder+insert"):
+        pos = min([new.index(c) for c in here if c in new] or [0])
+        for c in rng.sample(fresh, rng.choice([1, 1, 2])):
+            new.insert(rng.randint(0, pos), c)
+    n2, m2 = len(new), rng.randint(1, 12)
+    fam = "float" if str(dm.get("family")).endswith("float") else "dyadic"
+    positive = all(x > 0 for row in dm["matrix"] for x in row)
+    rows = G.matrix(rng, m2, n2, fam, positive, ties=rng.choice([0.2, 0.5]), dups=0.1)
+    if dm.get("int_matrix"):
+        rows = [[float(int(x * 8)) for x in row] for row in rows]
+    for j, c in enumerate(new):  # shared criteria: about half of the cells take a value of that criterion in the first matrix
+        if c in crits:
+            col = [row[crits.index(c)] for row in dm["matrix"]]
+            for i in range(m2):
+                if rng.random() < 0.5:
+                    rows[i][j] = rng.choice(col)
+    out = {"matrix": rows, "int_matrix": bool(dm.get("int_matrix")), "objectives": G.objectives(rng, n2), "weights": G.weights(rng, n2, "dyadic"),
+           "alternatives": G.labels(rng, G.LABEL_POOL_ALT, m2), "criteria": new, "family": "reuse:" + how}
+    return out, how
+
+
+def _reuse_case(rng, k):
+    dm = G.dm_case(rng, family=rng.choice(["dyadic", "dyadic", "float"]), positive=rng.random() < 0.6, ties=rng.choice([0.2, 0.5]),
+                   dups=0.1, max_m=12, max_n=6, min_m=2, min_n=2)
+    crits = dm["criteria"]
+    # the criteria that the conditions name: the same keys for the runs of the case (values per class), not the first column alone
+    keys = rng.sample(crits, min(len(crits), rng.choice([1, 2, 2, 3])))
+    if keys == [crits[0]] and rng.random() < 0.7:
+        keys = [rng.choice(crits[1:])]
+    absent = rng.sample([a for a in ABSENT_POOL if a not in crits], rng.choice([0, 0, 0, 1]))
+    keys += absent
+    rng.shuffle(keys)
+    runs = []
+    for t in range(3):
+        cls = BYCRIT[(3 * k + t) % len(BYCRIT)]
+        conds = []
+        for c in keys:
+            col = [row[crits.index(c)] for row in dm["matrix"]] if c in crits else [rng.randint(0, 40) / 8]
+            conds.append([c, _cond_value(rng, cls, col)])
+        runs.append({"cls": cls, "conds": conds, "ignore": (rng.random() < 0.8) if absent else (k + t) % 2 == 0})
+    reuse = []
+    for _ in range(rng.choice([1, 1, 2])):
+        reuse.append(_derived_dm(rng, dm, keys)[0])
+    if rng.random() < 0.3:
+        reuse.append(dm)  # ... and back to the first matrix
+    return {"dm": dm, "runs": runs, "reuse": reuse}
+
+
 def _malformed_cases(rng):
     dm = G.dm_case(rng, family="dyadic", max_m=4, max_n=3)
     c0 = dm["criteria"][0]
@@ -713,6 +863,10 @@ def gen(ctx):
         cases.append(_label_case(rng, k))
     for k in range(ctx.n(220, 1200)):
         cases.append(_history_case(rng, k))
+    for k in range(ctx.n(120, 600)):
+        cases.append(_order_case(rng, k))
+    for k in range(ctx.n(240, 1200)):
+        cases.append(_reuse_case(rng, k))
     if ctx.thorough:
         cases.extend(_exhaustive())
     return cases
@@ -722,7 +876,8 @@ def search_gen(ctx):
     rng = ctx.rng
     return [_random_case(rng) for _ in range(3000)] + [_long_set_case(rng) for _ in range(600)] + [_near_tie_case(rng) for _ in range(600)] + \
         [_colrel_case(rng) for _ in range(600)] + [_bigint_nd_case(rng) for _ in range(300)] + \
-        [_label_case(rng, k) for k in range(400)] + [_history_case(rng, k) for k in range(400)]
+        [_label_case(rng, k) for k in range(400)] + [_history_case(rng, k) for k in range(400)] + \
+        [_order_case(rng, k) for k in range(300)] + [_reuse_case(rng, k) for k in range(600)]
 
 
 # --------------------------------------------------------------------------- implementation side
@@ -874,6 +1029,15 @@ def observe(case):
         warnings.simplefilter("ignore")
         out = []
         dm = G.mkdm(case["dm"])  # one matrix, all the runs of the case on it (transform must not touch it)
+        others = [G.mkdm(d) for d in case.get("reuse", [])]  # further matrices, given to the SAME filter object afterwards
+
+        def apply(flt, x, pre=None):
+            try:
+                res = flt.transform(x)
+            except Exception as e:
+                return {"err": G.err_name(e), "stage": "transform", "msg": str(e)[:120]}
+            return dict(_dm_obs(res), pre=pre) if pre else _dm_obs(res)
+
         for run in case["runs"]:
             try:
                 flt = _build(run)
@@ -881,13 +1045,14 @@ def observe(case):
                 out.append({"err": G.err_name(e), "stage": "init", "msg": str(e)[:120]})
                 continue
             pre = [_do_step(dm, st) for st in run.get("pre", [])]  # the history: queries made on this very object beforehand
-            try:
-                res = flt.transform(dm)
-            except Exception as e:
-                out.append({"err": G.err_name(e), "stage": "transform", "msg": str(e)[:120]})
-                continue
-            out.append(dict(_dm_obs(res), pre=pre) if pre else _dm_obs(res))
-        return {"runs": out, "input_after": _dm_obs(dm)}
+            o = apply(flt, dm, pre)
+            if others:
+                o["then"] = [apply(flt, x) for x in others]
+            out.append(o)
+        obs = {"runs": out, "input_after": _dm_obs(dm)}
+        if others:
+            obs["reuse_after"] = [_dm_obs(x) for x in others]
+        return obs
 
 
 # --------------------------------------------------------------------------- model side
@@ -917,16 +1082,23 @@ def _enc_run(run, version="fixed", dm=None):
     return r
 
 
+def _request(dm, runs):
+    base = {"criteria": dm["criteria"], "alternatives": dm["alternatives"], "matrix": C.ratmat(dm["matrix"]),
+            "objectives": dm["objectives"]}
+    if len(runs) == 1:
+        return dict(base, op="filter", **runs[0])
+    return dict(base, op="filter_multi", runs=runs)
+
+
 def requests(case, obs):
     dm = case["dm"]
     runs = [_enc_run(r, dm=dm) for r in case["runs"]]
     # the pre-fix pairing, as a diagnosis when an arithmetic run fails
     runs += [_enc_run(r, "v0") for r in case["runs"] if r["cls"] in ARITH]
-    base = {"criteria": dm["criteria"], "alternatives": dm["alternatives"], "matrix": C.ratmat(dm["matrix"]),
-            "objectives": dm["objectives"]}
-    if len(runs) == 1:
-        return [dict(base, op="filter", **runs[0])]
-    return [dict(base, op="filter_multi", runs=runs)]
+    reqs = [_request(dm, runs)]
+    for d in case.get("reuse", []):  # the same filters on each further matrix: one request per matrix
+        reqs.append(_request(d, [_enc_run(r, dm=d) for r in case["runs"]]))
+    return reqs
 
 
 # --------------------------------------------------------------------------- the property, from its text
@@ -1001,12 +1173,78 @@ def _constructor_refuses(run):
     return len(run["conds"]) == 0 or (run["cls"] in SETS and any(len(v) == 0 for _, v in run["conds"]))
 
 
+def _judge_application(out, dm, run, o, mrep, v0rep, label, replay):
+    """one application of one filter to one decision matrix: model vs implementation, and the property from its text"""
+
+    def prop(what, expected=None, observed=None):
+        out.append({"kind": "property", "what": f"{label}: {what}", "expected": expected, "observed": observed, "case": replay})
+
+    def corr(what, expected=None, observed=None):
+        out.append({"kind": "correspondence", "what": f"{label}: {what}", "expected": expected, "observed": observed, "case": replay})
+
+    # ---- correspondence: model vs implementation (errors by class, survivors and their rows exactly)
+    if "err" in o:
+        if mrep.get("err") != o["err"]:
+            corr("model and implementation disagree on the error", mrep, {"err": o["err"], "stage": o["stage"], "msg": o["msg"]})
+    else:
+        if "err" in mrep:
+            corr("model refuses, implementation answers", mrep, o["alts"])
+        else:
+            if mrep["alts"] != o["alts"]:
+                corr("survivors: model vs implementation", mrep["alts"], o["alts"])
+            elif mrep["rows"] != C.ratmat(o["matrix"]):
+                corr("surviving rows: model vs implementation", mrep["rows"], C.ratmat(o["matrix"]))
+    # ---- property
+    if _constructor_refuses(run):
+        # outside the quantifier ("non-empty sets of conditions"): checked against the model only
+        return
+    exp = oracle(dm, run)
+    if exp == "ValueError":
+        if o.get("err") != "ValueError":
+            prop("a condition names an absent criterion and missing criteria are not ignored: ValueError expected",
+                 "ValueError", o.get("err") or o["alts"])
+        return
+    if "err" in o:
+        prop(f"raised {o['err']} ({o['msg']}) although every condition is on a present criterion or missing criteria are ignored",
+             [dm["alternatives"][j] for j in exp], o["err"])
+        return
+    exp_alts = [dm["alternatives"][j] for j in exp]
+    if o["alts"] != exp_alts:
+        note = ""
+        if v0rep is not None and v0rep.get("alts") == o["alts"]:
+            note = " [the implementation agrees with the pre-fix pairing arithMask_v0: columns in matrix order, thresholds in dict order]"
+        if sorted(o["alts"]) == sorted(exp_alts):
+            prop("survivors are not in their original relative order" + note, exp_alts, o["alts"])
+        elif run["cls"] == "NonDominated":
+            prop("survivors are not exactly the alternatives that no other alternative %sdominates"
+                 % ("strictly " if run["strict"] else ""), exp_alts, o["alts"])
+        else:
+            prop("survivors are not exactly the alternatives that satisfy every condition on the criterion it names" + note,
+                 exp_alts, o["alts"])
+        return
+    exp_rows = [dm["matrix"][j] for j in exp]
+    if o["matrix"] != exp_rows and not (len(exp_rows) == 0 and len(o["matrix"]) == 0):
+        prop("a surviving alternative's row is not its original row", exp_rows, o["matrix"])
+    if o["criteria"] != dm["criteria"] or o["objectives"] != dm["objectives"] or o["weights"] != dm["weights"]:
+        prop("criteria / objectives / weights were changed by a filter",
+             [dm["criteria"], dm["objectives"], dm["weights"]], [o["criteria"], o["objectives"], o["weights"]])
+
+
+def _unchanged(out, dm, ia, case):
+    if ia["alts"] != dm["alternatives"] or ia["matrix"] != dm["matrix"] or ia["criteria"] != dm["criteria"] or \
+            ia["objectives"] != dm["objectives"] or ia["weights"] != dm["weights"]:
+        out.append({"kind": "property", "what": "the input decision matrix was modified by a filter's transform",
+                    "expected": dm, "observed": ia, "case": case})
+
+
 def judge(case, obs, replies):
     out = []
     dm = case["dm"]
     n_runs = len(case["runs"])
     rep = replies[0]
     model = [rep] if "results" not in rep else rep["results"]
+    later = [[r] if "results" not in r else r["results"] for r in replies[1:]]  # one reply per further matrix (reuse)
+    reuse = case.get("reuse", [])
     v0 = {}
     k = n_runs
     for i, run in enumerate(case["runs"]):
@@ -1028,72 +1266,22 @@ def judge(case, obs, replies):
             label += "(strict=%s)" % run["strict"]
             if run.get("pre"):
                 label += " after " + ", ".join("%s(%s)" % (st[0], ", ".join(map(str, st[1:]))) for st in run["pre"])
-
-        def prop(what, expected=None, observed=None):
-            out.append({"kind": "property", "what": f"{label}: {what}", "expected": expected, "observed": observed, "case": single(i)})
-
-        def corr(what, expected=None, observed=None):
-            out.append({"kind": "correspondence", "what": f"{label}: {what}", "expected": expected, "observed": observed, "case": single(i)})
-
-        mrep = model[i]
-        # ---- correspondence: model vs implementation (errors by class, survivors and their rows exactly)
-        if "err" in o:
-            if mrep.get("err") != o["err"]:
-                corr("model and implementation disagree on the error", mrep, {"err": o["err"], "stage": o["stage"], "msg": o["msg"]})
-        else:
-            if "err" in mrep:
-                corr("model refuses, implementation answers", mrep, o["alts"])
-            else:
-                if mrep["alts"] != o["alts"]:
-                    corr("survivors: model vs implementation", mrep["alts"], o["alts"])
-                elif mrep["rows"] != C.ratmat(o["matrix"]):
-                    corr("surviving rows: model vs implementation", mrep["rows"], C.ratmat(o["matrix"]))
-        # ---- property
-        if _constructor_refuses(run):
-            # outside the quantifier ("non-empty sets of conditions"): checked against the model only
-            continue
-        exp = oracle(dm, run)
-        if exp == "ValueError":
-            if o.get("err") != "ValueError":
-                prop("a condition names an absent criterion and missing criteria are not ignored: ValueError expected",
-                     "ValueError", o.get("err") or o["alts"])
-            continue
-        if "err" in o:
-            prop(f"raised {o['err']} ({o['msg']}) although every condition is on a present criterion or missing criteria are ignored",
-                 [dm["alternatives"][j] for j in exp], o["err"])
-            continue
-        exp_alts = [dm["alternatives"][j] for j in exp]
-        if o["alts"] != exp_alts:
-            note = ""
-            if i in v0 and v0[i].get("alts") == o["alts"]:
-                note = " [the implementation agrees with the pre-fix pairing arithMask_v0: columns in matrix order, thresholds in dict order]"
-            if sorted(o["alts"]) == sorted(exp_alts):
-                prop("survivors are not in their original relative order" + note, exp_alts, o["alts"])
-            elif run["cls"] == "NonDominated":
-                prop("survivors are not exactly the alternatives that no other alternative %sdominates"
-                     % ("strictly " if run["strict"] else ""), exp_alts, o["alts"])
-            else:
-                prop("survivors are not exactly the alternatives that satisfy every condition on the criterion it names" + note,
-                     exp_alts, o["alts"])
-            continue
-        exp_rows = [dm["matrix"][j] for j in exp]
-        if o["matrix"] != exp_rows and not (len(exp_rows) == 0 and len(o["matrix"]) == 0):
-            prop("a surviving alternative's row is not its original row", exp_rows, o["matrix"])
-        if o["criteria"] != dm["criteria"] or o["objectives"] != dm["objectives"] or o["weights"] != dm["weights"]:
-            prop("criteria / objectives / weights were changed by a filter",
-                 [dm["criteria"], dm["objectives"], dm["weights"]], [o["criteria"], o["objectives"], o["weights"]])
-    ia = obs["input_after"]
-    if ia["alts"] != dm["alternatives"] or ia["matrix"] != dm["matrix"] or ia["criteria"] != dm["criteria"] or \
-            ia["objectives"] != dm["objectives"] or ia["weights"] != dm["weights"]:
-        out.append({"kind": "property", "what": "the input decision matrix was modified by a filter's transform",
-                    "expected": dm, "observed": ia, "case": case})
+        _judge_application(out, dm, run, o, model[i], v0.get(i), label, single(i))
+        # the same filter object on the further matrices: each application against ITS OWN matrix
+        for q, (d, oq) in enumerate(zip(reuse, o.get("then", []))):
+            lab = "%s, the same filter object then applied to matrix #%d (criteria %r; before it: %s)" % (
+                label, q + 2, d["criteria"], ", ".join(repr(x["criteria"]) for x in [dm] + reuse[:q]))
+            _judge_application(out, d, run, oq, later[q][i], None, lab, {"dm": dm, "runs": [run], "reuse": reuse[: q + 1]})
+    _unchanged(out, dm, obs["input_after"], case)
+    for d, ia in zip(reuse, obs.get("reuse_after", [])):
+        _unchanged(out, d, ia, case)
     return out
 
 
 def nontrivial(case, obs):
     m = len(case["dm"]["alternatives"])
     for run, o in zip(case["runs"], obs["runs"]):
-        if "err" in o or 0 < len(o["alts"]) < m or len(run.get("conds", [])) >= 2 or run.get("pre"):
+        if "err" in o or 0 < len(o["alts"]) < m or len(run.get("conds", [])) >= 2 or run.get("pre") or o.get("then"):
             return True
     return False
 
@@ -1103,8 +1291,23 @@ def tags(case, obs):
     dm = case["dm"]
     crits = dm["criteria"]
     t.append("family:" + str(dm.get("family")))
+    for d in case.get("reuse", []):
+        t.append("reuse:further-matrix:" + str(d.get("family"))[6:] if d is not dm else "reuse:back-to-the-first-matrix")
+        named = {c for run in case["runs"] for c, _ in run["conds"]}
+        if d is not dm and any(c in d["criteria"] and d["criteria"].index(c) != crits.index(c) for c in named if c in crits):
+            t.append("reuse:a-named-criterion-at-another-column-position")
+        if len(d["criteria"]) <= max([crits.index(c) for c in named if c in crits] or [0]):
+            t.append("reuse:further-matrix-narrower-than-a-named-criterion's-first-position")
     for run, o in zip(case["runs"], obs["runs"]):
         t.append("cls:" + run["cls"])
+        if len(dm["matrix"]) >= 17 and "err" not in o and len(o["alts"]) >= 2:
+            t.append("long:17+alternatives,2+survivors:" + ("NonDominated" if run["cls"] == "NonDominated" else "by-criteria"))
+            keep = set(o["alts"])
+            flags = [a in keep for a in dm["alternatives"]]
+            if False in flags and flags.index(False) < len(flags) - 1 - flags[::-1].index(True):
+                t.append("long:a-removed-alternative-listed-before-a-survivor")
+        for oq in o.get("then", []):
+            t.append("reuse:application:" + ("raised:" + oq["err"] if "err" in oq else "answered"))
         if "err" in o:
             t.append("raised:" + o["err"])
         elif len(o["alts"]) == 0:
